@@ -229,6 +229,13 @@ func gen(tier string) []proto.Item {
 		}
 	}
 
+	// the IPv4 target handed to the variant's constructor in its 16-byte form (what net.ParseIP, net.IPv4 and resolvers
+	// return): the same probes to the same address
+	for _, v := range []string{"udp4", "syn", "synparis"} {
+		s := proto.Scn{Variant: v, First: 1, Last: 5, Dest: 3, IPIDBase: 600, EchoBase: 61, TimeoutMs: 300, DelayMs: 10, Target16: true}
+		items = append(items, proto.Item{Scn: s, Class: v + "/target-in-16-byte-form"})
+	}
+
 	return items
 }
 
